@@ -339,6 +339,19 @@ func exprCollectStrings(ts []exprTok, seen map[string]bool, out *[]string) {
 	}
 }
 
+// exprCollectLits: the text of every number literal (strconv.ParseFloat of it is its value)
+func exprCollectLits(ts []exprTok, seen map[string]bool, out *[]string) {
+	for _, t := range ts {
+		if t.Num != "" && !seen[t.Num] {
+			seen[t.Num] = true
+			*out = append(*out, t.Num)
+		}
+		if exprIsGroup(t) {
+			exprCollectLits(t.Sub, seen, out)
+		}
+	}
+}
+
 func exprCollectFloats(ts []exprTok, seen map[uint64]bool, out *[]float64) {
 	for _, t := range ts {
 		if exprIsGroup(t) {
@@ -380,13 +393,11 @@ func exprCollectFloats(ts []exprTok, seen map[uint64]bool, out *[]float64) {
 // every number that a contiguous arithmetic window of the case evaluates to
 // (only when the case has a string literal: only then can a number be printed).
 func exprOracles(ts []exprTok) string {
-	var strs []string
+	var strs, lits []string
 	exprCollectStrings(ts, map[string]bool{}, &strs)
-	if len(strs) == 0 {
-		return "no_oracles"
-	}
+	exprCollectLits(ts, map[string]bool{}, &lits)
 	var pe []string
-	for _, s := range strs {
+	for _, s := range append(append([]string{}, lits...), strs...) {
 		v, err := types.ConvertGoType(s, types.Number)
 		if err != nil {
 			pe = append(pe, "("+coqlit.Bytes(s)+", None)")
@@ -399,7 +410,9 @@ func exprOracles(ts []exprTok) string {
 		pe = append(pe, "("+coqlit.Bytes(s)+", Some "+exprFloatCoq(f)+")")
 	}
 	var fl []float64
-	exprCollectFloats(ts, map[uint64]bool{}, &fl)
+	if len(strs) > 0 {
+		exprCollectFloats(ts, map[uint64]bool{}, &fl)
+	}
 	var fe []string
 	for _, f := range fl {
 		fe = append(fe, "("+exprFloatCoq(f)+", "+coqlit.Bytes(types.FloatToString(f))+")")
